@@ -22,4 +22,7 @@ def run(tier: str, seed: int):
         serial = list(F.fam_shapes(1, 4, batch=1)) + list(F.fam_faults(1, 4, max_faults=2, kinds=('raise',), perms=True, cofs=(True,), reqs='sinks')) + list(F.fam_variants(3))
         rule = 'n<=5 shapes; n<=4 x label permutations x fault sets <=2; n=5 single faults'
         e3c = list(F.fam_e3(list(F.fam_faults(1, 3, max_faults=2, cofs=(True,), perms=True)) + list(F.fam_shapes(1, 3)), workers=(1, 2), liveness=False)) + list(F.fam_e3(F.fam_faults(4, 4, cofs=(True,), reqs='sinks'), workers=(2,), liveness=False))
+    if tier != 'quick':
+        x_cf, x_se, x_e3 = F.thorough_extras('C17')
+        cfgs, serial, e3c = list(cfgs) + x_cf, list(serial) + x_se, list(e3c) + x_e3
     return run_e2_property('C17', tier, seed, cfgs, serial_configs=serial, e3_configs=e3c, hash_slices=([('faults3', 1), ('faults3', 2), ('shapes3', 1)] if tier == 'quick' else [('faults3', 1), ('faults3', 2), ('faults3', 3), ('shapes3', 1), ('faults4', 1), ('faults4', 2)]), real_cases=list(F.fam_real(F.real_bases('plain') + F.real_bases('faults'), workers=(2,))), rule=rule, assumptions=ASSUME)
